@@ -726,7 +726,7 @@ def run(ctx):
     from . import c14 as _c14
     _reuse(ctx, lambda c: _c14.run(c, shared=False), ("C14.flow",), "C11file",
            "stale-flow rule shared with C14: resume_from_file() continues the checkpointed population with the flow stored next to it; if a refit flow was never "
-           "written, log_q, the temperature schedule and every later population differ from the uninterrupted run")
+           "written, log_q, the temperature schedule and every later population differ from the uninterrupted run", only=lambda f: not f.key.endswith("| window"))
     from . import c04 as _c04
     _reuse(ctx, lambda c: _c04.run(c, shared=False), ("C04.wire",), "C11wire", "wiring rule shared with C04: resume_from_file() rebuilds the transforms from a configuration whose mappings come back key-sorted; bounds taken in "
            "mapping order are then attached to the wrong parameters and the resumed run evaluates another proposal")
